@@ -22,6 +22,8 @@ import (
 	"io/fs"
 	"os"
 	"os/exec"
+	"os/signal"
+	"syscall"
 	"path/filepath"
 	"regexp"
 	"sort"
@@ -490,6 +492,14 @@ func main() {
 	}
 	defer cleanup()
 	cleanupHook = cleanup
+	sigc := make(chan os.Signal, 1)
+	signal.Notify(sigc, os.Interrupt, syscall.SIGTERM)
+	go func() {
+		<-sigc
+		fmt.Fprintln(os.Stderr, "check: interrupted; removing scratch directory")
+		cleanup()
+		os.Exit(2)
+	}()
 	bin := build(sp, scratch, *verbose)
 	if *selftest {
 		determinismSelfTest(bin, scratch, sp, prop, *tier, seed)
